@@ -6,7 +6,7 @@ CONSTANTS
   MaxClient = 4
   MaxRestarts = 0
   MaxLog = 12
-  KeyByCtx = FALSE
+  KeyByCtx = TRUE
   OneTerminal = TRUE
   SkipOldCalls = TRUE
   StampCall = TRUE
